@@ -53,6 +53,7 @@ type g2lUnit struct {
 	externFue map[string]bool   // extern takes fuel
 	structNames []string        // struct types of the package to emit
 	noEq      map[string]bool   // structs without DecidableEq (function fields)
+	exclude   map[string]bool   // functions never pulled in automatically (only called on statically dead branches)
 	inout     map[string]string // function -> name of the map/pointer parameter (or receiver) it mutates; returned as an extra last result
 	effFns    map[string]string // function -> Lean type of one effect-log entry (its result becomes R × List entry)
 	ifaceStructs map[string]string // multi-method interface -> Lean structure text (emitted verbatim); method call = field application
